@@ -53,7 +53,13 @@ ACCEPTS = [None, '', 'text/html', 'application/json', 'application/xml', 'text/p
            'garbage', ';;;', 'text/html;q=abc', ',', 'a/b/c', 'text/html;;q=1', '*', 'text/html q=1',
            'image/png;q=0.9, text/plain;q=0.1', 'application/xml;q=1.0, application/json;q=0.999',
            'text/html;q=0.1, */*', 'application/xml;q=0.2, application/*', 'application/json;q=0.1, text/html;q=0.2, text/*;q=0.9',
-           'text/*;q=0.3, application/json;q=0.2', '*/*;q=0.1, text/plain;q=0.05', 'application/*;q=0.5, text/html;q=0.4, */*;q=0.1']
+           'text/*;q=0.3, application/json;q=0.2', '*/*;q=0.1, text/plain;q=0.05', 'application/*;q=0.5, text/html;q=0.4, */*;q=0.1',
+           # long real-world headers: size and number of ranges must not matter
+           'text/html,application/xhtml+xml,application/xml;q=0.9,image/avif,image/webp,image/apng,*/*;q=0.8,application/signed-exchange;v=b3;q=0.7',
+           'application/vnd.api+json, application/vnd.github.v3+json;q=0.95, application/vnd.verif.v2+json;q=0.9, application/hal+json;q=0.8, application/json;q=0.6',
+           'application/vnd.verif.t0+json;q=0.9, application/vnd.verif.t1+json;q=0.8, application/vnd.verif.t2+json;q=0.7, application/vnd.verif.t3+json;q=0.6, application/vnd.verif.t4+json;q=0.5, application/vnd.verif.t5+json;q=0.4, application/vnd.verif.t6+json;q=0.3, application/vnd.verif.t7+json;q=0.2, application/vnd.verif.t8+json;q=0.1, application/vnd.verif.t9+json;q=0.9, application/vnd.verif.t10+json;q=0.8, application/vnd.verif.t11+json;q=0.7, application/vnd.verif.t12+json;q=0.6, application/vnd.verif.t13+json;q=0.5, application/vnd.verif.t14+json;q=0.4, application/vnd.verif.t15+json;q=0.3, application/vnd.verif.t16+json;q=0.2, application/vnd.verif.t17+json;q=0.1, application/vnd.verif.t18+json;q=0.9, application/vnd.verif.t19+json;q=0.8, application/xml;q=0.05',
+           'image/x-fmt0, image/x-fmt1, image/x-fmt2, image/x-fmt3, image/x-fmt4, image/x-fmt5, image/x-fmt6, image/x-fmt7, image/x-fmt8, image/x-fmt9, image/x-fmt10, image/x-fmt11, image/x-fmt12, image/x-fmt13, image/x-fmt14, image/x-fmt15, image/x-fmt16, image/x-fmt17, image/x-fmt18, image/x-fmt19, image/x-fmt20, image/x-fmt21, image/x-fmt22, image/x-fmt23, image/x-fmt24, image/x-fmt25, image/x-fmt26, image/x-fmt27, image/x-fmt28, image/x-fmt29, image/x-fmt30, image/x-fmt31, image/x-fmt32, image/x-fmt33, image/x-fmt34, image/x-fmt35, image/x-fmt36, image/x-fmt37, image/x-fmt38, image/x-fmt39, text/html;q=0.3',
+           'text/plain;q=0.4, audio/x-0;q=0.9, audio/x-1;q=0.9, audio/x-2;q=0.9, audio/x-3;q=0.9, audio/x-4;q=0.9, audio/x-5;q=0.9, audio/x-6;q=0.9, audio/x-7;q=0.9, audio/x-8;q=0.9, audio/x-9;q=0.9, audio/x-10;q=0.9, audio/x-11;q=0.9, audio/x-12;q=0.9, audio/x-13;q=0.9, audio/x-14;q=0.9, audio/x-15;q=0.9, audio/x-16;q=0.9, audio/x-17;q=0.9, audio/x-18;q=0.9, audio/x-19;q=0.9, audio/x-20;q=0.9, audio/x-21;q=0.9, audio/x-22;q=0.9, audio/x-23;q=0.9, audio/x-24;q=0.9, audio/x-25;q=0.9, audio/x-26;q=0.9, audio/x-27;q=0.9, audio/x-28;q=0.9, audio/x-29;q=0.9, audio/x-30;q=0.9, audio/x-31;q=0.9, audio/x-32;q=0.9, audio/x-33;q=0.9, audio/x-34;q=0.9, audio/x-35;q=0.9, audio/x-36;q=0.9, audio/x-37;q=0.9, audio/x-38;q=0.9, audio/x-39;q=0.9, audio/x-40;q=0.9, audio/x-41;q=0.9, audio/x-42;q=0.9, audio/x-43;q=0.9, audio/x-44;q=0.9, audio/x-45;q=0.9, audio/x-46;q=0.9, audio/x-47;q=0.9, audio/x-48;q=0.9, audio/x-49;q=0.9, audio/x-50;q=0.9, audio/x-51;q=0.9, audio/x-52;q=0.9, audio/x-53;q=0.9, audio/x-54;q=0.9, audio/x-55;q=0.9, audio/x-56;q=0.9, audio/x-57;q=0.9, audio/x-58;q=0.9, audio/x-59;q=0.9, audio/x-60;q=0.9, audio/x-61;q=0.9, audio/x-62;q=0.9, audio/x-63;q=0.9, audio/x-64;q=0.9, audio/x-65;q=0.9, audio/x-66;q=0.9, audio/x-67;q=0.9, audio/x-68;q=0.9, audio/x-69;q=0.9']
 
 
 # ---- independent Accept handling (O6) ----------------------------------------------------------
@@ -239,6 +245,9 @@ def ep_err():
     for k in ('message', 'error_type', 'code'):
         if spec.get(k) is not None:
             kw[k] = spec[k]
+    if spec.get('nonbreaking'):
+        # deferred: later routes get their turn; nobody answers this path, so the error comes back as the response
+        kw['is_breaking'] = False
     e = cls(spec.get('detail'), **kw) if spec['cls'] != 'MethodNotAllowed' else cls(spec.get('allowed'), spec.get('detail'), **kw)
     if spec.get('how') == 'return':
         return e
@@ -277,6 +286,7 @@ def gen_case(rng, n):
     if kind == 'class':
         case['cls'] = rng.pick(CLASSES)
         case['how'] = rng.pick(['raise', 'return'])
+        case['nonbreaking'] = rng.chance(0.3)
         for f in ('detail', 'message', 'error_type'):
             if rng.chance(0.6):
                 case[f] = payload(rng, n)
